@@ -120,12 +120,12 @@ func (p *Path) finish(status string) {
 		need := false
 		ex.mu.Lock()
 		for _, l := range p.labels {
-			if _, ok := ex.witnesses[l]; !ok {
+			if ex.witnessCount[l] < witnessesPerLabel {
 				need = true
 			}
 		}
 		if len(p.labels) == 0 {
-			if _, ok := ex.witnesses["(end)"]; !ok {
+			if ex.witnessCount["(end)"] < witnessesPerLabel {
 				need = true
 			}
 		}
@@ -166,10 +166,12 @@ func (p *Path) finish(status string) {
 				ls = []string{"(end)"}
 			}
 			for _, l := range ls {
-				if _, ok := ex.witnesses[l]; !ok {
+				if ex.witnessCount[l] < witnessesPerLabel {
 					w := *wit
 					w.Label = l
-					ex.witnesses[l] = &w
+					ex.witnesses[fmt.Sprintf("%s#%d", l, ex.witnessCount[l])] = &w
+					ex.witnessCount[l]++
+					break // one label per path is enough
 				}
 			}
 		}
@@ -189,6 +191,8 @@ func (p *Path) finish(status string) {
 		delete(p.w.opaqueHits, k)
 	}
 }
+
+const witnessesPerLabel = 4
 
 func hexVec(v []uint64, max int) string {
 	var sb strings.Builder
